@@ -624,10 +624,26 @@ func (c *Checker) batchReplay(w *World, known []KnownFinding) map[string]repResu
 			todo = append(todo, r)
 		}
 	}
-	if len(todo) == 0 {
-		return out
+	if len(todo) > 0 {
+		replayCPU(w, todo, out)
 	}
-	replayCPU(w, todo, out)
+	var etodo []*ObResult
+	for i := range c.Results {
+		r := &c.Results[i]
+		if r.Result == "violated" && r.Model != nil && !strings.Contains(r.Name, "@op=") && !c.isKnown(known, r.Name) {
+			etodo = append(etodo, r)
+		}
+	}
+	if len(etodo) > 0 {
+		func() {
+			defer func() {
+				if rr := recover(); rr != nil {
+					c.Notes = append(c.Notes, fmt.Sprintf("emitter replay failed: %v", rr))
+				}
+			}()
+			replayEmitter(w, etodo, out)
+		}()
+	}
 	return out
 }
 
